@@ -20,12 +20,14 @@ RULE = ("structured documents (nesting <= 5, empty containers, duplicate and emp
         "trailing input, invalid UTF-8. non-trivial = at least one of the two parsers returns a value, or the document "
         "is a corruption of a document both accept; distinct = distinct case text")
 TRUSTED = ["Coq 8.16.1 kernel and vm_compute",
-           "the specification coq/JsonSpec.v (spec_parse, json_subset), tied to the example parser and to encoding/json "
-           "only by this differential run on the generated documents",
-           "the C08 literal specifications of coq/Literals.v reused as the terminals (proved equal to the model of "
-           "text/terminal in LiteralProofs.v)",
+           "the engine model coq/Engine.v + coq/Top.v (shared with C01-C06/C12/C17, validated by ./check ENG) and the "
+           "grammar term coq/Json.v, tied to the example parser by this differential run and by the driver's comparison of "
+           "the parser built from that term with json.NewParser()",
+           "the specification coq/JsonSpec.v (spec_parse, json_subset): proved equal to the engine model on the grammar "
+           "term (Props/C16.v part II); tied to encoding/json only by this run",
+           "the C08 literal specifications of coq/Literals.v (proved equal to the model of text/terminal in LiteralProofs.v)",
            "Go's encoding/json and strconv.ParseFloat as reference oracles",
-           "Go driver harness/c16.go", "lib/core.py orchestration"]
+           "Go driver harness/c16.go + harness/eng.go's builder", "lib/core.py orchestration"]
 ASSUMPTIONS = ["bytes are < 256",
                "strconv.ParseFloat fails on a lexeme of the Float expression exactly when the exactly rounded value is "
                "infinite (float_overflow; checked against Go on every float lexeme of every generated document)",
@@ -419,19 +421,24 @@ def distribution(cases, obs):
 
 
 MANIFEST = {
-    "technique": ("Rocq specification of the example grammar's concrete syntax (proved sound and complete for a grammar "
-                  "given as inductive rules) + differential run of the specification (vm_compute) against the example "
-                  "parser and against encoding/json"),
-    "text": ("JsonSpec.spec_parse is a direct recursive-descent specification, derived from examples/json/json/parser.go, "
-             "of which byte strings the example grammar accepts and with which value (whitespace modes, Go's string/"
-             "number lexemes, ordered Choice, SepBy without trailing separator, last duplicate key wins). Theorems C16_* "
-             "(coq/Props/C16.v) prove it sound and complete with respect to the grammar json_doc written as inductive "
-             "rules. Every run compares, inside Coq, the real parser's result with the specification on every generated "
-             "document (value, or error where the specification has none; never a panic), and on json_subset (the grammar "
-             "with RFC 8259 lexemes only) compares the specification and parsley's value with encoding/json's."),
-    "note": ("Phase 1: the tie between the specification and the parser is the differential run only; the engine-level "
-             "theorems (no panic, reject, accept about the engine model evaluating the grammar as a pexpr) follow when the "
-             "engine model has literal terminals. Trusted: Coq kernel + vm_compute; JsonSpec.v; Literals.v specifications; "
-             "encoding/json and strconv as oracles; Go driver."),
+    "technique": ("Rocq proof that the engine model run on the example grammar (a pexpr term) computes a direct specification "
+                  "of the grammar's concrete syntax, which is proved sound and complete for grammar rules + differential run "
+                  "of model and specification (vm_compute) against the example parser and against encoding/json"),
+    "text": ("Json.v holds the grammar of examples/json/json/parser.go as a pexpr term (the Go driver builds the real "
+             "combinators from the same term and checks they behave as json.NewParser()). Theorems C16_no_panic, C16_reject, "
+             "C16_accept, C16_engine_is_spec (coq/Props/C16.v) prove for every byte string, every ParseFloat that fails "
+             "exactly on the range error and every fuel, that the engine model's Evaluate never panics (Select's index, "
+             "Object's type assertions and key.(string) are safe), returns a value only for a document derivable by the "
+             "grammar rules json_doc (whole input), and returns the derivation's value for every derivable document; the "
+             "proof goes through JsonSpec.spec_parse, a direct recursive-descent specification proved sound and complete "
+             "for json_doc (whitespace modes, Go's string/number lexemes, ordered Choice, SepBy without trailing separator, "
+             "last duplicate key wins). Every run compares, inside Coq, the real parser's result with the model's and with "
+             "the specification's on every generated document, and on json_subset (the grammar with RFC 8259 lexemes only) "
+             "compares the specification and parsley's value with encoding/json's."),
+    "note": ("The theorems give SOME sufficient fuel (and: any fuel yields OutOfFuel or the right answer); that the concrete "
+             "json_fuel = 40 + 12*length is sufficient is checked by the run only. The agreement with encoding/json is a "
+             "differential result on the generated documents, not a theorem. Trusted: Coq kernel + vm_compute; the engine "
+             "model and the grammar term (differential); Literals.v specifications; encoding/json and strconv as oracles; "
+             "Go driver."),
     "ref": "DESIGN.md section 6, C16",
 }
